@@ -24,7 +24,7 @@ RULE = (
     "(suspending in enter and/or exit, or raising from exit) and 0-2 spawned tasks (returning, "
     "failing, spawning a grandchild, failing while being cancelled, needing one more suspension to "
     "finish their cancellation), body returning or failing; one cancel(victim) at every "
-    "quiescent point of every interleaving; plus all scripts of length <= 4 over {ctx.cancel, "
+    "quiescent point of every interleaving (for <= 1 disposable and <= 1 spawned task also together with a second event in the same loop iteration); plus all scripts of length <= 4 over {ctx.cancel, "
     "task.cancel, pause, check}; plus all scripts of length <= 3 in which the victim requests its own cancellation and then enters / runs / leaves nested blocks (failing or not, spawning or not) without catching CancelledError; non-trivial = the cancellation was delivered while the victim "
     "was inside a scope's enter, body or exit"
 )
@@ -102,6 +102,13 @@ def programs(tier: str):
             # the body fails on its own; the cancellation may arrive while the exit is already
             # aborting the spawned tasks
             yield {"family": "scope", "block": dict(b, ending="raise"), "cancels": 1, "outer": False}
+    # the cancellation and another event (a disposable or spawned task finishing a step) landing
+    # in the same loop iteration
+    for b in outer_blocks:
+        if len(b["disp"]) <= 1 and len(b["spawns"]) <= 1 and (b["disp"] or b["spawns"]):
+            yield {"family": "scope", "block": b, "cancels": 1, "outer": False, "batch": 2}
+            if b["spawns"]:
+                yield {"family": "scope", "block": dict(b, ending="raise"), "cancels": 1, "outer": False, "batch": 2}
     # nested: an inner block of every kind inside a simple / busy outer scope
     inner_kinds = [
         {"kind": "sscope", "supply": ["A"], "pause": True, "ending": "return"},
@@ -312,7 +319,7 @@ def execute(program, ch: Chooser) -> Result:  # noqa: C901
         return _check_script(program, ch)
     if program["family"] == "self":
         return _self_script(program, ch)
-    r = Run(program, ch, cancels=1)
+    r = Run(program, ch, cancels=1, batch=program.get("batch", 1))
     viols: list[dict] = []
     waited: list = []
 
